@@ -4,6 +4,7 @@ from hypothesis import strategies as st
 from vf import hyp
 from vf.transport import WouldBlockForever
 
+from slimta.smtp import BadReply
 from slimta.smtp.client import Client, LmtpClient
 
 ID = 'C10'
@@ -155,6 +156,8 @@ def steps(case, result):
     def sync_check(where):
         # every returned reply must now hold the script entry of its own slot
         for slot, (name, rep, _) in enumerate(returned):
+            if rep is None:
+                continue            # refused as a bad reply (code outside 1xx-5xx): nothing was handed back for this slot
             code, lines = script[slot] if slot < len(script) else ('250', ['2.0.0 filler %d' % slot])
             want_text = '\r\n'.join(lines)
             if name in ('ehlo', 'lhlo') and code == '250':
@@ -235,7 +238,15 @@ def steps(case, result):
                 returned.append((name, client.quit(), None))
                 out += sync_check(name)
             elif name == 'custom':
-                returned.append((name, client.custom_command(call[1].encode(), call[2].encode() if call[2] else None), None))
+                slot = len(returned)
+                try:
+                    r = client.custom_command(call[1].encode(), call[2].encode() if call[2] else None)
+                except BadReply:
+                    if not (slot < len(script) and script[slot][0][0] not in '12345'):
+                        raise
+                    # a three-digit code that is no SMTP code: refusing it is fine, but exactly that reply must be gone
+                    r = None
+                returned.append((name, r, None))
                 out += sync_check(name)
         if not out:
             client._flush_pipeline()
@@ -315,7 +326,7 @@ def case_strategy(draw):
     script.append((hcode, hl))
     for t in range(draw(st.integers(1, 3))):
         if draw(st.integers(0, 5)) == 0:
-            add(['custom', 'NOOP', ''])
+            add(['custom', 'NOOP', ''], force=draw(st.sampled_from([None, None, '650', '099', '999'])))
         utf8_off = not (hcode == '250' and hello != 'helo' and 'SMTPUTF8' in hl)
         if utf8_off and draw(st.integers(0, 7)) == 0:
             calls.append(['bad-address', 'mailfrom'])
@@ -343,7 +354,7 @@ def case_strategy(draw):
         elif end == 'rset':
             add(['rset'], force='250')
         if draw(st.integers(0, 6)) == 0:
-            add(['custom', 'VRFY', 'someone'])
+            add(['custom', 'VRFY', 'someone'], force=draw(st.sampled_from([None, None, None, '650', '700'])))
     add(['quit'], force=draw(st.sampled_from(['221', '221', '250', '421'])))
     chunks = draw(st.one_of(st.just([4096]), st.just([1]), st.lists(st.integers(1, 40), min_size=1, max_size=6)))
     return {'lmtp': lmtp, 'pipelining': pipelining, 'calls': calls, 'script': [[c, l] for c, l in script], 'chunks': chunks}
@@ -388,7 +399,7 @@ def _sanitise(case):
     except Exception:
         return None
     for c, l in script:
-        if len(c) != 3 or not c.isdigit() or c[0] not in '2345' or not l or any(('\r' in x or '\n' in x) for x in l) \
+        if len(c) != 3 or not c.isdigit() or c[0] not in '0123456789' or not l or any(('\r' in x or '\n' in x) for x in l) \
                 or any(not x for x in l[:-1]):
             return None
         esc = esc_for(c)
